@@ -271,7 +271,7 @@ func scriptHash(script string) string {
 
 // discharge runs the solvers on a script (negated goal): unsat = proved.
 // Sequential portfolio: z3-new, cvc5, z3-old. In race mode all three run at once.
-func discharge(script, outDir, name string, timeoutS int, race bool) (SolverResult, string) {
+func discharge(script, outDir, name string, timeoutS int, race bool, retry bool) (SolverResult, string) {
 	h := scriptHash(script)
 	file := filepath.Join(outDir, sanitizeFile(name)+"-"+h+".smt2")
 	if r, ok := scriptCache.Load(h); ok {
@@ -309,6 +309,21 @@ func discharge(script, outDir, name string, timeoutS int, race bool) (SolverResu
 			}
 			if i == 0 || (r.Status == "sat" && best.Status != "sat") {
 				best = r
+			}
+		}
+	}
+	if retry && !race && best.Status != "unsat" && best.Status != "sat" && timeoutS <= 10 {
+		// nothing decided within the quick budget (the machine may be loaded): one more attempt, all solvers at once
+		// with a longer limit, before the obligation is reported as failed
+		ch := make(chan SolverResult, len(solvers))
+		for _, sp := range solvers {
+			go func(sp solverSpec) { ch <- runSolver(sp, file, 3*timeoutS) }(sp)
+		}
+		for range solvers {
+			r := <-ch
+			if r.Status == "unsat" {
+				best = r
+				break
 			}
 		}
 	}
